@@ -267,13 +267,13 @@ def check_c13(tier, seed):
 
 
 # ----------------------------------------------------------------------------------------
-def validate_cases(cases, props, wd):
+def validate_cases(cases, props, wd, module="RunTrace"):
     tf = os.path.join(wd, "cases.json")
     with open(tf, "w") as f:
         json.dump(cases, f)
-    cfg = os.path.join(wd, "RunTrace.cfg")
+    cfg = os.path.join(wd, module + ".cfg")
     tlc.write_cfg(cfg, constants={"Props": "{" + ", ".join('"%s"' % p for p in props) + "}"})
-    r = tlc.run_tlc(os.path.join(tlc.SPEC, "RunTrace.tla"), cfg, wd, workers=8, timeout=1500, env={"TRACE_FILE": tf}, heap="8g")
+    r = tlc.run_tlc(os.path.join(tlc.SPEC, module + ".tla"), cfg, wd, workers=8, timeout=1500, env={"TRACE_FILE": tf}, heap="8g")
     out = {"viol": [], "drift": [], "states": r.get("distinct", 0), "errors": []}
     if r["timed_out"] or not r["finished"] or r.get("distinct") != len(cases):
         out["errors"].append({"distinct": r.get("distinct"), "expected": len(cases), "tail": r["out"][-3000:]})
